@@ -574,5 +574,34 @@ def rule_shared_windows(check, rule, cg=None):
             check.violation(rule, site_of(fi, a), 'temporary-mutation window on shared state: %s.%s(...) is undone later by %s(...) in the same '
                             'function, and other threads running retrieval observe the intermediate state' % (recv, a.func.attr, inv[0].func.attr),
                             key=key, witness='two threads retrieving signatures concurrently')
+    # placeholder-then-fill: the same key of a shared container is assigned twice in one activation;
+    # between the two stores other threads observe the placeholder
+    for k in keys:
+        fi = repo.func(k, required=False)
+        if fi is None:
+            continue
+        locs = local_names(fi.node)
+        stores = {}
+        for n_ in _own_nodes(fi.node):
+            if isinstance(n_, ast.Subscript) and isinstance(n_.ctx, ast.Store):
+                root = receiver_root(n_.value)
+                if root is None or root in locs:
+                    continue
+                if root in fi.module.assigns or root in fi.module.imports:
+                    stores.setdefault((norm(n_.value), norm(n_.slice)), []).append(n_)
+        for (recv, keytxt), nodes in stores.items():
+            if len(nodes) < 2:
+                continue
+            vals = set()
+            for n_ in nodes:
+                par = getattr(n_, '_parent', None)
+                if isinstance(par, ast.Assign):
+                    vals.add(norm(par.value))
+            if len(vals) >= 2:
+                n += 1
+                check.violation(rule, site_of(fi, nodes[0]), 'temporary state on a shared container: %s[%s] is first set to one value and later in the '
+                                'same activation to another (%s); a thread looking the key up in between takes the placeholder for the answer'
+                                % (recv, keytxt, ' / '.join(sorted(vals))[:80]), key='%s|placeholder|%s' % (fi.key, recv),
+                                witness='two threads retrieving the signature of the same function for the first time')
     check.holds(rule, '-', 'no unreviewed add/remove window on shared state in the retrieval closure (%d functions scanned)' % len(keys),
                 key='shared-window|scan')
